@@ -982,6 +982,13 @@ func (u *Unit) resolveType(home *packages.Package, t *STypeExpr) (types.Type, st
 			mt := types.NewMap(kt, vt)
 			return mt, u.sortOf(mt)
 		}
+	case "goarray":
+		et, _ := u.resolveType(home, t.Elem)
+		n, _ := strconv.ParseInt(t.Name, 10, 64)
+		if et != nil {
+			at := types.NewArray(et, n)
+			return at, u.sortOf(at)
+		}
 	case "set":
 		_, es := u.resolveType(home, t.Elem)
 		return nil, "(Array " + es + " Bool)"
